@@ -371,6 +371,20 @@ func runC14(c *Ctx) error {
 				c.Rep.Find(report.Finding{Property: "C14", Family: "ordering", Shape: f + ":prerelease-not-carried-as-written",
 					What: fmt.Sprintf("the version %s-%s has the prerelease %q; the %s package states version %q", core, pre, pre, f, pmPre.Version), Input: in})
 			}
+			// apk: pkgver is version, '_' and the prerelease as written (then -r<release> and the metadata, 'p'-prefixed
+			// unless it already starts like one of apk's own suffixes); rpm: '~' and the prerelease with '-' as '_'
+			if pre != "" && f == "apk" && !strings.Contains(pmPre.Version, "_"+pre) {
+				c.Rep.Find(report.Finding{Property: "C14", Family: "ordering", Shape: "apk:prerelease-not-carried-as-written",
+					What: fmt.Sprintf("the version %s-%s has the prerelease %q; the apk package states pkgver %q (two different prereleases can get the same pkgver)", core, pre, pre, pmPre.Version), Input: in})
+			}
+			if meta != "" && f == "apk" && !strings.Contains(pmPre.Version, "-"+meta) && !strings.Contains(pmPre.Version, "-p"+meta) {
+				c.Rep.Find(report.Finding{Property: "C14", Family: "ordering", Shape: "apk:version-metadata-not-carried-as-written",
+					What: fmt.Sprintf("the configuration states build metadata %q; the apk package states pkgver %q", meta, pmPre.Version), Input: in})
+			}
+			if pre != "" && f == "rpm" && !strings.Contains(pmPre.Version, "~"+strings.ReplaceAll(pre, "-", "_")) {
+				c.Rep.Find(report.Finding{Property: "C14", Family: "ordering", Shape: "rpm:prerelease-not-carried-as-written",
+					What: fmt.Sprintf("the version %s-%s has the prerelease %q; the rpm package states version %q", core, pre, pre, pmPre.Version), Input: in})
+			}
 			// archlinux: with an epoch configured (0 included) the prerelease is part of pkgver ('-' written as '_'); the
 			// case without an epoch is the known finding recorded under C02 / C15 and is not judged here
 			if f == "archlinux" && pre != "" && epoch != "" && !strings.Contains(pmPre.Version, strings.ReplaceAll(pre, "-", "_")) {
